@@ -67,7 +67,7 @@ theorem q_diag_le (a : Nat → ℂ) (h0 : normSq (a 0) ≤ 1) (h1 : normSq (a 1)
   nlinarith [mul_le_mul_of_nonneg_right h0 (normSq_nonneg p.fp), mul_le_mul_of_nonneg_right h1 (normSq_nonneg p.fm),
     mul_le_mul_of_nonneg_right h2 (normSq_nonneg p.z)]
 
-private theorem fin_q (s : SM ℂ) : Function.HasFiniteSupport (fun k : ℤ => q (s.get k)) := by
+theorem fin_q (s : SM ℂ) : Function.HasFiniteSupport (fun k : ℤ => q (s.get k)) := by
   show (Function.support _).Finite
   apply Set.Finite.subset (Set.finite_Icc (-(s.n : ℤ)) s.n)
   intro k hk
@@ -204,7 +204,7 @@ private theorem geq_scalApply (a a0 : Nat → ℂ) (s : SM ℂ) (k : ℤ) : (sca
   · simp [h]
   · simp only [h]; rw [geq_of_not_inRange s k (by simpa using h)]; rfl
 
-private theorem normSq_exp_real_le (x : ℂ) (hx : 0 ≤ x.re) : normSq (Complex.exp (-x)) ≤ 1 := by
+theorem normSq_exp_real_le (x : ℂ) (hx : 0 ≤ x.re) : normSq (Complex.exp (-x)) ≤ 1 := by
   rw [normSq_eq_norm_sq, Complex.norm_exp]
   have : Real.exp (-x).re ≤ 1 := by
     rw [Real.exp_le_one_iff]; simpa using hx
